@@ -74,7 +74,8 @@ def main():
                 perm = rng.permutation(len(sens))
                 variants.append(("permuted", np.array(sens, dtype=float)[perm], b, perm.tolist(), 1e-9))
             if ci % 3 == 0:
-                sh = np.array([rng.choice([-1, 1]) * 10.0 ** rng.randint(1, 5) * 4, 123.0])
+                e_ = 1 + (ci // 3) % 4          # both coordinates far from the origin (up to 1e4 x the array extent), or only one
+                sh = np.array([rng.choice([-1, 1]) * 10.0 ** e_ * 8, 123.0 if ci % 6 else rng.choice([-1, 1]) * 10.0 ** e_ * 8])
                 variants.append((f"translated by {sh.tolist()}", np.array(sens, dtype=float) + sh, b + sh, list(range(len(sens))), 1e-6))
                 k = float(rng.choice([1e-3, 37.0, 1e3]))
                 variants.append((f"scaled by {k}", np.array(sens, dtype=float) * k, b * k, list(range(len(sens))), 1e-9))
